@@ -24,6 +24,12 @@
    [SnapshotPrune] is the variant "Counters() works on a snapshot of the map and afterwards
    drops the limiters it found idle" (refuted in RegistryProofs.v).
 
+   [FreshDivides] is the tree WITHOUT patches/C09/fix-F-C09b.patch: Counter() calls
+   ensureWindowIsUpdated unconditionally, i.e. divides by the stored window size, which is 0
+   on a state getLimiterState has registered and whose first TryToIncrement has not stored
+   the window data yet (a request between RLook and its limiter region): the collection
+   panics.  Head = the patched Counter(), which returns the counter of such a state.
+
    The single-limiter functions are Model.try_inc / Model.peek (tied to the source by
    C09.GenEquiv).  Executable definitions only. *)
 From Coq Require Import List ZArith Bool Arith.
@@ -31,7 +37,11 @@ From Verif Require Import C09.Model.
 Import ListNotations.
 Open Scope Z_scope.
 
-Inductive variant := Head | SnapshotPrune.
+Inductive variant := Head | SnapshotPrune | FreshDivides.
+
+(* Counter() divides by the stored window size without looking at it *)
+Definition divides (v : variant) : bool :=
+  match v with FreshDivides => true | _ => false end.
 
 (* groupsStateByLimiter: key -> pointer *)
 Definition rmap := list (key * nat).
@@ -75,7 +85,8 @@ Inductive cpc :=
         (acc : list (key * Z))            (* counters read so far *)
         (idle : list key)                 (* SnapshotPrune: limiters judged idle *)
 | CRelease (acc : list (key * Z)) (idle : list key)   (* SnapshotPrune: before release(idle) *)
-| CDone (out : option (list (key * Z))).  (* None: run-time panic (integer divide by zero) *)
+| CDone (out : option (list (key * Z))).  (* None: run-time panic (integer divide by zero;
+                                             variant FreshDivides only) *)
 
 Inductive thread :=
 | TReq (k : key) (wd : wdata) (pc : rpc)
@@ -109,7 +120,8 @@ Definition reading (ts : list thread) : bool :=
 (* state.mutex held across steps: only by Counters() of the HEAD code *)
 Definition reg_locked (v : variant) (ts : list thread) : bool :=
   match v with
-  | Head => existsb (fun t => match t with TCol (CWork _ _ _) => true | _ => false end) ts
+  | Head | FreshDivides =>
+      existsb (fun t => match t with TCol (CWork _ _ _) => true | _ => false end) ts
   | SnapshotPrune => false
   end.
 
@@ -170,7 +182,7 @@ Definition step_col (v : variant) (c : config) (i : nat) (now : Z) (pick : nat)
       match todo with
       | [] =>
           match v with
-          | Head => Some (set_thread c i (TCol (CDone (Some acc))))
+          | Head | FreshDivides => Some (set_thread c i (TCol (CDone (Some acc))))
           | SnapshotPrune => Some (set_thread c i (TCol (CRelease acc idle)))
           end
       | _ =>
@@ -179,14 +191,15 @@ Definition step_col (v : variant) (c : config) (i : nat) (now : Z) (pick : nat)
           | Some (k, p) =>
               (* Counter() / usage() under the limiter's mutex *)
               let s := nth p (c_heap c) init in
-              if wW (swd s) =? 0 then
-                (* elapsedTime / WindowSize with a zero size: the collection panics, the deferred
-                   unlocks run, nothing was written *)
+              if divides v && (wW (swd s) =? 0) then
+                (* unpatched Counter(): elapsedTime / WindowSize with a zero size: the collection
+                   panics, the deferred unlocks run, nothing was written *)
                 Some (set_thread c i (TCol (CDone None)))
               else
+                (* patched Counter(): a stored size 0 is returned as it is (Model.peek) *)
                 let s' := peek now s in
                 let idle' := match v with
-                             | Head => idle
+                             | Head | FreshDivides => idle
                              | SnapshotPrune => if in_use s' then idle else idle ++ [k]
                              end in
                 Some {| c_map := c_map c; c_heap := upd (c_heap c) p s';
@@ -198,7 +211,7 @@ Definition step_col (v : variant) (c : config) (i : nat) (now : Z) (pick : nat)
   | CRelease acc idle =>
       (* release(idle) under state.mutex (a state HEAD never reaches) *)
       match v with
-      | Head => None
+      | Head | FreshDivides => None
       | SnapshotPrune =>
           Some {| c_map := fold_left rdel idle (c_map c); c_heap := c_heap c;
                   c_threads := upd (c_threads c) i (TCol (CDone (Some acc)));
